@@ -23,6 +23,8 @@ give `false` (never `true`); a file that does not parse aborts the translation (
  pop_unconditional        _storage.pop_shape_memo is exactly `<cell>.memo_stack.pop()`
  disabled_returns_before_push   in every function that tests config.jaxtyping_disable and pushes a context, the test is a
                           top-level `if` whose body returns fn(*args, **kwargs) and precedes the push (and any bind)
+ messages_read_live_memo  every shape_str(..) call in _decorator.py is shape_str(get_shape_memo()): error messages and notes
+                          format the context as it is at that moment, not a tuple captured earlier
 """
 import ast, os
 
@@ -270,6 +272,18 @@ def disabled_first(tree, par, notes):
     return ok
 
 
+def messages_live(tree, notes):
+    """every shape_str(..) in _decorator.py formats the LIVE context: its argument is literally get_shape_memo()"""
+    cs = calls(tree, "shape_str")
+    if not cs:
+        notes.append("_decorator.py: no shape_str call found"); return False
+    ok = True
+    for c in cs:
+        if not (len(c.args) == 1 and isinstance(c.args[0], ast.Call) and call_name(c.args[0]) == "get_shape_memo" and not c.args[0].args):
+            ok = False; notes.append("_decorator.py: shape_str at line %d is not given get_shape_memo()" % c.lineno)
+    return ok
+
+
 def translate(repo):
     trees = {}
     for f in ("_pytree_type.py", "_array_types.py", "_decorator.py", "_storage.py"):
@@ -284,6 +298,7 @@ def translate(repo):
         ("push_pop_bracketed", push_pop(trees, notes)),
         ("pop_unconditional", pop_unconditional(trees["_storage.py"][0], notes)),
         ("disabled_returns_before_push", disabled_first(trees["_decorator.py"][0], trees["_decorator.py"][1], notes)),
+        ("messages_read_live_memo", messages_live(trees["_decorator.py"][0], notes)),
     ]
     out = ["(* GENERATED by translator/tr_brackets.py from jaxtyping/{_pytree_type,_array_types,_decorator,_storage}.py -- do not edit *)",
            "From Coq Require Import String List Bool.", "Import ListNotations.", "Open Scope string_scope."]
